@@ -10,6 +10,7 @@
 #include <sys/mman.h>
 #include <unistd.h>
 
+#include <csignal>
 #include <chrono>
 #include <map>
 #include <set>
@@ -75,7 +76,7 @@ static void relocate_all(World &w) {
 }
 
 // ---- canonical key ----------------------------------------------------------------------------------------------
-static std::string key_of(World &w) {
+static std::vector<std::string> slot_keys(World &w) {
   std::vector<int> all;
   // joint rank pattern of the NON-ZERO values; zero stays distinguished because value-initialised elements
   // (resize(n), append(n), Vector(n)) are always zero, so "equals a future value-initialised element" is observable
@@ -102,10 +103,49 @@ static std::string key_of(World &w) {
     s += ']';
     parts.push_back(s);
   }
+  return parts;
+}
+static std::string key_of(World &w) {
+  std::vector<std::string> parts = slot_keys(w);
   std::sort(parts.begin(), parts.end());
   std::string k;
   for (auto &p : parts) k += p;
   return k;
+}
+/// Destructive probe appended to the key of the state a run ends in (the pool is destroyed right afterwards): what
+/// clear() and then shrink_to_fit() leave behind (size, capacity, inline?) exposes size/capacity words or buffers that
+/// are out of step although every observer agrees.  A function of the visible key for a correct implementation.
+static std::string probe_of(World &w) {
+  std::vector<std::string> parts = slot_keys(w);
+  for (int i = 0; i < w.K; ++i) {
+    V &v = w.slot[i].v();
+    char buf[96];
+    v.clear();
+    long s1 = (long)v.size(), c1 = (long)v.capacity();
+    int i1 = (int)is_inline(v);
+    bool threw = false;
+    try {
+      v.shrink_to_fit();
+    } catch (...) {
+      threw = true;
+    }
+    std::snprintf(buf, sizeof buf, "~%ld,%ld,%d,%ld,%ld,%d,%d;", s1, c1, i1, (long)v.size(), (long)v.capacity(), (int)is_inline(v), (int)threw);
+    parts[i] += buf;
+  }
+  std::sort(parts.begin(), parts.end());
+  std::string k;
+  for (auto &p : parts) k += p;
+  return k;
+}
+static std::string strip_probe(const std::string &k) {
+  std::string r;
+  bool skip = false;
+  for (char c : k) {
+    if (c == '~') skip = true;
+    if (!skip) r += c;
+    if (c == ';') skip = false;
+  }
+  return r;
 }
 
 // ---- observers ----------------------------------------------------------------------------------------------------
@@ -194,8 +234,19 @@ static void observe(World &w, const char *tags) {
 }
 
 // ---- one execution --------------------------------------------------------------------------------------------------
+
+// watchdog: one execution (history + operation) that does not finish within 30 s is a hang (a corrupted container can
+// send an algorithm into an endless loop); it is reported like a crash, with the breadcrumb naming the execution
+static void on_alarm(int) {
+  static const char msg[] = "\nSUMMARY: watchdog: execution did not terminate within 30 s (hang)\n";
+  ssize_t r = write(2, msg, sizeof msg - 1);
+  (void)r;
+  _exit(97);
+}
+
 struct RunResult {
   std::string key_before, key_after;
+  std::string key_full;  // key of the final state of the run including the destructive probe
   uint64_t digest = 0;
   int nfail = 0;
   bool prefix_failed = false;
@@ -219,6 +270,7 @@ static bool g_fault_seen = false;
 /// state are written to *enabled when requested (only meaningful without op).
 static RunResult run_once(const std::vector<Op> &hist, const Op *op, int K, int L, std::vector<Op> *enabled, const Opts &o) {
   RunResult r;
+  alarm(30);
   World &w = g_w;
   w.K = K;
   w.L = L;
@@ -250,11 +302,19 @@ static RunResult run_once(const std::vector<Op> &hist, const Op *op, int K, int 
     observe(w, op->f ? "C09" : g_overlimit ? "C08" : tags_for(op->k));
     r.key_after = key_of(w);
   }
+  {
+    const int nf = vf::L().nfail;
+    vf::L().quiet = true;  // the probe is not an oracle
+    r.key_full = probe_of(w);
+    vf::L().quiet = false;
+    vf::L().nfail = nf;
+  }
   pool_destroy(w);
   if (E::tracked && vf::L().live() != 0) vf::fail("C02", "%d element objects still alive after all containers were destroyed", vf::L().live());
   if (kLedgerAlloc && vf::AL().n != 0) vf::fail("C06", "%d blocks outstanding after all containers were destroyed", vf::AL().n);
   r.digest = g_digest;
   r.nfail = vf::L().nfail;
+  alarm(0);
   return r;
 }
 
@@ -297,6 +357,7 @@ struct State {
 
 int main(int argc, char **argv) {
   install_hooks();
+  std::signal(SIGALRM, on_alarm);
   int K = 1, L = 4;
   bool explore = false;
   std::string replay;
@@ -391,11 +452,13 @@ int main(int argc, char **argv) {
   auto succ_keys = [&](const std::vector<Op> &H) {
     std::vector<std::string> ks;
     std::vector<Op> en;
+    crumb(H, nullptr, 0);
     run_once(H, nullptr, K, L, &en, o);
     std::vector<Op> ops2 = en;
     for (const Op &op : ops2) {
+      crumb(H, &op, 0);
       RunResult rr = run_once(H, &op, K, L, nullptr, o);
-      ks.push_back(rr.nfail ? std::string("FAIL") : rr.key_after);
+      ks.push_back(rr.nfail ? std::string("FAIL") : rr.key_full);
     }
     std::sort(ks.begin(), ks.end());
     return ks;
@@ -404,9 +467,9 @@ int main(int argc, char **argv) {
   {
     std::vector<Op> none;
     RunResult r0 = run_once(none, nullptr, K, L, nullptr, o);
-    seen[r0.key_before] = 0;
+    seen[r0.key_full] = 0;
     states.push_back(State{-1, Op(), 0, 0});
-    keys.push_back(r0.key_before);
+    keys.push_back(r0.key_full);
   }
   long transitions = 0, viol_total = 0, fault_transitions = 0, max_events = 0;
   std::set<uint64_t> digests;
@@ -429,7 +492,7 @@ int main(int argc, char **argv) {
     std::vector<Op> h = history((int)cur);
     crumb(h, nullptr, 0);
     RunResult rp = run_once(h, nullptr, K, L, &enabled, o);
-    if (rp.key_before != keys[cur]) {
+    if (rp.key_before != strip_probe(keys[cur])) {
       nondet = "canon-on-replay failed for state " + keys[cur] + " via " + hist_str(h) + " got " + rp.key_before;
       break;
     }
@@ -440,7 +503,7 @@ int main(int argc, char **argv) {
       ++transitions;
       ++per_kind[kind_name(op.k)];
       digests.insert(r.digest);
-      if (r.key_before != keys[cur]) {
+      if (r.key_before != strip_probe(keys[cur])) {
         nondet = "prefix replay diverged at state " + keys[cur];
         break;
       }
@@ -457,7 +520,7 @@ int main(int argc, char **argv) {
         }
         if (failure_is_fatal()) continue;  // the successor is not expanded (model and code may have diverged)
       }
-      auto it = seen.find(r.key_after);
+      auto it = seen.find(r.key_full);
       if (it != seen.end() && merges_checked < merge_check && it->second != (int)cur && !r.nfail) {
         // two different histories were merged into one state: their futures must agree (soundness of the key)
         std::vector<Op> h2 = h;
@@ -466,16 +529,16 @@ int main(int argc, char **argv) {
         if (hist_str(h1) != hist_str(h2)) {
           ++merges_checked;
           if (succ_keys(h1) != succ_keys(h2)) {
-            nondet = "state abstraction unsound: histories [" + hist_str(h1) + "] and [" + hist_str(h2) + "] share key " + r.key_after + " but have different successor keys";
+            nondet = "state abstraction unsound: histories [" + hist_str(h1) + "] and [" + hist_str(h2) + "] share key " + r.key_full + " but have different successor keys";
             break;
           }
         }
       }
       if (it == seen.end()) {
         int id = (int)states.size();
-        seen.emplace(r.key_after, id);
+        seen.emplace(r.key_full, id);
         states.push_back(State{(int)cur, op, states[cur].depth + 1, states[cur].faults});
-        keys.push_back(r.key_after);
+        keys.push_back(r.key_full);
         maxdepth = std::max(maxdepth, states[cur].depth + 1);
       }
       // ---- fault enumeration: the k-th throwing event of this operation throws, for every k --------------------
@@ -503,10 +566,10 @@ int main(int argc, char **argv) {
               viols.push_back(VRec{vf::L().fails[0].tags, vf::L().fails[0].msg, hist_str(h), op_str(fop), keys[cur]});
             continue;
           }
-          if (seen.find(rf.key_after) == seen.end()) {
-            seen.emplace(rf.key_after, (int)states.size());
+          if (seen.find(rf.key_full) == seen.end()) {
+            seen.emplace(rf.key_full, (int)states.size());
             states.push_back(State{(int)cur, fop, states[cur].depth + 1, states[cur].faults + 1});
-            keys.push_back(rf.key_after);
+            keys.push_back(rf.key_full);
             maxdepth = std::max(maxdepth, states[cur].depth + 1);
           }
         }
